@@ -17,4 +17,18 @@ theorem views_TriggersPhysical : structOK false true TriggersPhysical.views = tr
 theorem views_Velocities : structOK false true Velocities.views = true := by decide +kernel
 theorem views_Velocity : structOK false true Velocity.views = true := by decide +kernel
 
+/-! the Arrow schema of every generated struct against `gen/resources/frames.json` (C14: "exactly those of the
+    per-version field table") -/
+theorem schema_End : schemaMatchesJson End.views End.framesJson = true := by decide +kernel
+theorem schema_Item : schemaMatchesJson Item.views Item.framesJson = true := by decide +kernel
+theorem schema_ItemMisc : schemaMatchesJson ItemMisc.views ItemMisc.framesJson = true := by decide +kernel
+theorem schema_Position : schemaMatchesJson Position.views Position.framesJson = true := by decide +kernel
+theorem schema_Post : schemaMatchesJson Post.views Post.framesJson = true := by decide +kernel
+theorem schema_Pre : schemaMatchesJson Pre.views Pre.framesJson = true := by decide +kernel
+theorem schema_Start : schemaMatchesJson Start.views Start.framesJson = true := by decide +kernel
+theorem schema_StateFlags : schemaMatchesJson StateFlags.views StateFlags.framesJson = true := by decide +kernel
+theorem schema_TriggersPhysical : schemaMatchesJson TriggersPhysical.views TriggersPhysical.framesJson = true := by decide +kernel
+theorem schema_Velocities : schemaMatchesJson Velocities.views Velocities.framesJson = true := by decide +kernel
+theorem schema_Velocity : schemaMatchesJson Velocity.views Velocity.framesJson = true := by decide +kernel
+
 end Peppi
